@@ -25,11 +25,12 @@ import FsModel.MultiFsDriver
 import FsModel.FtpDriver
 import FsModel.MountFsDriver
 import FsModel.ErrorsDriver
+import FsModel.BaseWalkDriver
 
 open Fs
 
 def handlers : List (String → List String → Option String) :=
-  [ PathDriver.handle, RefDriver.handle, FileDriver.handle, CopyDriver.handle, ArchiveDriver.handle, RouteDriver.handle, FaultDriver.handle, GuardDriver.handle, ParseDriver.handle, WalkDriver.handle, ConfineDriver.handle, BulkDriver.handle, GlobDriver.handle, ConcDriver.handle, InfoDriver.handle, OsDriver.handle, WrapDriver2.handle, TextDriver.handle, HandlesDriver.handle, MultiFsDriver.handle, FtpDriver.handle, MountFsDriver.handle, ErrorsDriver.handle ]
+  [ PathDriver.handle, RefDriver.handle, FileDriver.handle, CopyDriver.handle, ArchiveDriver.handle, RouteDriver.handle, FaultDriver.handle, GuardDriver.handle, ParseDriver.handle, WalkDriver.handle, ConfineDriver.handle, BulkDriver.handle, GlobDriver.handle, ConcDriver.handle, InfoDriver.handle, OsDriver.handle, WrapDriver2.handle, TextDriver.handle, HandlesDriver.handle, MultiFsDriver.handle, FtpDriver.handle, MountFsDriver.handle, ErrorsDriver.handle, BaseWalkDriver.handle ]
 
 def dispatch (line : String) : String :=
   match (line.trimAscii.toString.splitOn " ").filter (· ≠ "") with
